@@ -120,12 +120,14 @@ def judge(case, out, app, probe):
 
 
 def run_case(run, e2, harnesses, case):
-    key = (case["kind"], bool(case.get("proxy")))
+    key = (case["kind"], bool(case.get("proxy")), bool(case.get("statsd")))
     h = harnesses.get(key)
     if h is None:
         cs = {"keepalive": 2}
         if case.get("proxy"):
             cs["proxy_protocol"] = True
+        if case.get("statsd"):
+            cs["statsd_host"] = "127.0.0.1:18125"      # instrumentation on: the Statsd logger sits in the access-log path
         h = harnesses[key] = e2.Harness(case["kind"], cs)
     app = App()
     stream = bytes.fromhex(case["stream"])
@@ -151,6 +153,8 @@ def run_case(run, e2, harnesses, case):
         run.count("silent_closes_seen")
     run.count("mode/" + mode)
     run.count("peer/" + str(case.get("peer", "tcp")))
+    if case.get("statsd"):
+        run.count("statsd_configured_cases")
     run.count("liveness_probes")
     return v, out
 
@@ -304,7 +308,7 @@ def shard(sh):
                     # arrive or the keep-alive timer fires (2 s): nothing wrong for C05, just slow - half-close instead
                     mode = "halfclose"
                 case = {"stream": s.hex(), "mode": mode, "kind": kind, "partial_read": rng.choice([1, 20, 500]),
-                        "peer": rng.choice(["tcp", "tcp", "unix", "unixb", "tcp6"])}
+                        "peer": rng.choice(["tcp", "tcp", "unix", "unixb", "tcp6"]), "statsd": rng.random() < 0.25}
                 one(case)
                 if k < 1:
                     run.sample({"class": "hostile grammar", "input": hexs(s[:300]), "mode": mode})
@@ -338,7 +342,7 @@ def shard(sh):
 def main(tier, seed):
     run = Run(PROP, tier, seed, "fault_enumeration", RULE)
     run.require("ref_rejected_inputs", "truncated_inputs", "error_replies_seen", "silent_closes_seen", "mode/halfclose",
-                "mode/hold", "mode/trickle", "mode/close", "mode/close_pending", "liveness_probes", "fd_checks", "peer/unix", "peer/tcp", "peer/tcp6")
+                "mode/hold", "mode/trickle", "mode/close", "mode/close_pending", "liveness_probes", "fd_checks", "peer/unix", "peer/tcp", "peer/tcp6", "statsd_configured_cases")
     q = tier == "quick"
     shards = [{"kind": "prefix", "sub": i, "of": 22, "seed": seed, "tier": tier} for i in range(22)]
     shards += [{"kind": "hostile", "n": 1200 if q else 20000, "sub": i, "seed": seed, "tier": tier} for i in range(12 if q else 32)]
